@@ -711,12 +711,14 @@ def oracle_case(case, res):
         return
     blk = L.exact_block(main["out"].split("\n"))
     empty_exact = blk is not None and len(blk) == 0
+    # D74, second form: a setup line inside a block of the table that has an else branch -> nested blocks in the expanded table
+    nested_else = L.setup_in_block_with_else(build_table(case, *case["top"]))
     for clause, detail in oracle_parser(case, res):
         # D4 (table parser, empty branch): `if (type == exact) { } else { X }` drops X in inexact mode, applies it in exact mode
-        yield (clause, "D4" if empty_exact else None, detail, 0)
+        yield (clause, "D4" if empty_exact else ("D74" if nested_else else None), detail, 0)
     if "exact" not in main["text"]:
         for detail in oracle_exact_actions(case, res):
-            yield ("exact_actions", "D4" if empty_exact else None, detail, 0)
+            yield ("exact_actions", "D4" if empty_exact else ("D74" if nested_else else None), detail, 0)
     if cf:
         if res.get("exact_ok") is not True or res.get("exact_records") != built:
             xr = res.get("exact_records") or {}
